@@ -366,8 +366,18 @@ def _same_measure(ctx, op, old, new, info, factor=F(1), exact=True, mech=None):
         ctx.check("measure-exact", mn == mo * factor, mech=mech or f"{op}:measure:{old.kind}", got=float(mn),
                   ref=float(mo * factor), **info)
     else:
-        ctx.close("measure-exact", float(mn), float(mo * factor), rtol=1e-11, mech=mech or f"{op}:measure:{old.kind}",
-                  **info)
+        # rounded coordinates: the measure of a cell of diameter h at distance |x| from the origin is known to
+        # eps*|x|/width relative (width = thinnest direction); 1e-11 is the floor for meshes of unit scale (a history of inexact maps may leave the
+        # mesh far from the origin)
+        Pn = np.asarray(new.mesh.p, dtype=float)
+        tn = np.asarray(new.mesh.t)[:new.nv]
+        ext = Pn[:, tn]                                   # (dim, nv, nt)
+        diam = float((ext.max(axis=1) - ext.min(axis=1)).max()) if tn.size else 1.0
+        # thinnest direction of an average cell: measure / diameter^(d-1)
+        width = abs(float(mn)) / max(new.nt, 1) / max(diam, 1e-300) ** (old.dim - 1)
+        cond = float(np.abs(Pn).max()) / max(width, 1e-300) if Pn.size else 1.0
+        ctx.close("measure-exact", float(mn), float(mo * factor), rtol=max(1e-11, 64 * 2.3e-16 * cond * old.dim),
+                  mech=mech or f"{op}:measure:{old.kind}", **info)
 
 
 def with_duplicate_nodes(rng, st):
